@@ -43,36 +43,26 @@ var (
 	bufExhLen  = 0
 )
 
-// linStride: the linearizability groups sit at the plan indices that are
-// multiples of the tier's child count, so that one child process runs all of
-// them (its 4 client goroutines + the checker need 5 cores to overlap for
-// real) while the other children run the single-threaded ring work. Several
-// children spinning on barriers at the same time starve each other: measured
-// 10x slower with a tenth of the overlap.
-func linStride() int { return mon.Pick(8, 16) }
-
 func plan() []group {
-	var lin, other []group
-	add := func(dst *[]group, kind string, groups, n int) {
+	var gs []group
+	add := func(kind string, groups, n int) {
 		for i := 0; i < groups; i++ {
-			*dst = append(*dst, group{kind: kind, n: n})
+			gs = append(gs, group{kind: kind, n: n})
 		}
 	}
+	// linearizability: quick 40 000 histories, thorough 1 000 000
 	per := mon.Pick(50, 200)
-	// interleave the three structures
-	for i, n := 0, mon.Pick(160, 1000); i < n; i++ {
-		add(&lin, "map", 2, per)
-		add(&lin, "atomic", 2, per)
-		add(&lin, "slice", 1, per)
-	}
+	add("map", mon.Pick(320, 2000), per)
+	add("atomic", mon.Pick(320, 2000), per)
+	add("slice", mon.Pick(160, 1000), per)
 	// ring vs container/ring
-	add(&other, "ring-seeded", mon.Pick(400, 10000), mon.Pick(50, 100))
+	add("ring-seeded", mon.Pick(400, 10000), mon.Pick(50, 100))
 	ringExhLen = mon.Pick(5, 6)
 	A := len(ringAlphabet)
 	for a := 0; a <= 3; a++ {
 		for b := 0; b <= 3; b++ {
 			for c := 0; c < A*A; c++ {
-				other = append(other, group{kind: "ring-exh", a: a, b: b, c: c, n: ringExhLen})
+				gs = append(gs, group{kind: "ring-exh", a: a, b: b, c: c, n: ringExhLen})
 			}
 		}
 	}
@@ -80,35 +70,18 @@ func plan() []group {
 	bufExhLen = mon.Pick(10, 16)
 	for a := 0; a <= 5; a++ {
 		for b := 0; b <= 5; b++ {
-			other = append(other, group{kind: "buf-exh", a: a, b: b, n: bufExhLen})
+			gs = append(gs, group{kind: "buf-exh", a: a, b: b, n: bufExhLen})
 		}
 	}
-	add(&other, "buf-seeded", mon.Pick(360, 18000), mon.Pick(50, 100))
-	// spread the kinds of `other` evenly over the plan (deterministic shuffle)
-	rng := mon.NewRNG("c14-plan", 0)
-	for i := len(other) - 1; i > 0; i-- {
+	add("buf-seeded", mon.Pick(360, 18000), mon.Pick(50, 100))
+	// A fixed shuffle spreads the kinds over the plan, so that the children do
+	// not all run their multi-goroutine linearizability batches at the same
+	// moment (the plan is the same in every child and for every seed; the
+	// per-case streams depend on the seed and the case index).
+	rng := mon.RNG{}
+	for i := len(gs) - 1; i > 0; i-- {
 		j := rng.Intn(i + 1)
-		other[i], other[j] = other[j], other[i]
-	}
-	var gs []group
-	stride := linStride()
-	for len(lin) > 0 || len(other) > 0 {
-		switch {
-		case len(gs)%stride == 0 && len(lin) > 0:
-			gs = append(gs, lin[0])
-			lin = lin[1:]
-		case len(gs)%stride == 0 || len(other) == 0:
-			// keep the residue classes: lin only at multiples of the stride
-			if len(gs)%stride != 0 && len(lin) > 0 {
-				gs = append(gs, group{kind: "pad"})
-			} else if len(other) > 0 {
-				gs = append(gs, other[0])
-				other = other[1:]
-			}
-		default:
-			gs = append(gs, other[0])
-			other = other[1:]
-		}
+		gs[i], gs[j] = gs[j], gs[i]
 	}
 	return gs
 }
@@ -150,9 +123,6 @@ func TestCheck(t *testing.T) {
 			continue
 		}
 		t0 := time.Now() // debugging aid only (C14_TIMING); never reaches an oracle
-		if g.kind == "pad" {
-			continue
-		}
 		rec.Begin(idx, g.String())
 		switch g.kind {
 		case "map", "atomic", "slice":
